@@ -44,6 +44,7 @@ type Profile struct {
 	OnCompleteFill int
 	LateAdd        bool
 	Epilogues      []string
+	EwmaPct        int  // percent of decorators that also implement EwmaDecorator
 	NoDecorPct     int  // percent of bars without any decorator (besides the row tag)
 	ChurnW         int  // weight of the macro "finish a bar, two render cycles, add the next bar" (one leaves, one joins between two frames)
 	PrioExtreme    bool // priorities from the whole int range now and then
@@ -82,6 +83,7 @@ func genDecorSpec(t *rapid.T, prof *Profile, sync bool, side int) engine.DecorSp
 		}
 	}
 	d.Listener = pct(t, prof.Listeners, "listener")
+	d.Ewma = pct(t, prof.EwmaPct, "ewmadecor")
 	return d
 }
 
